@@ -1,4 +1,5 @@
 import Driver.Loop
 import Driver.SpecOps
+import Driver.SM2Hist
 
-def main : IO Unit := Driver.run (fun toks => (Driver.specDispatch toks).getD "bad-op")
+def main : IO Unit := Driver.run (fun toks => ((Driver.specDispatch toks).orElse fun _ => Driver.sm2histDispatch toks).getD "bad-op")
